@@ -58,6 +58,7 @@ type Opts struct {
 	NoFormats       bool
 	NoEnums         bool
 	NoDefaults      bool
+	NoAnnotations   bool // no readOnly / writeOnly / deprecated / examples / $comment keywords
 	ComposeDefaults bool // defaults on the properties of allOf/anyOf branches (generation-level checks only)
 	NoRefDefaults   bool // no default keyword next to a $ref
 	NoAddProps      bool
@@ -198,6 +199,23 @@ func (g *Gen) Subject(depth int) *Schema {
 			s.Types = []string{s.Types[0], "null"}
 		} else {
 			s.Types = []string{"null", s.Types[0]}
+		}
+	}
+	if !g.O.NoAnnotations && s.Ref == "" && r.Chance(0.12) {
+		// annotation keywords: they say nothing about which documents are valid
+		switch r.IntN(6) {
+		case 0:
+			s.Extra = append(s.Extra, jsonx.KV{K: "readOnly", V: true})
+		case 1:
+			s.Extra = append(s.Extra, jsonx.KV{K: "writeOnly", V: true})
+		case 2:
+			s.Extra = append(s.Extra, jsonx.KV{K: "deprecated", V: true})
+		case 3:
+			s.Extra = append(s.Extra, jsonx.KV{K: "examples", V: []any{"ex", jsonx.N(1), nil}})
+		case 4:
+			s.Extra = append(s.Extra, jsonx.KV{K: "$comment", V: "a note to maintainers"})
+		case 5:
+			s.Extra = append(s.Extra, jsonx.KV{K: "x-vendor-extension", V: jsonx.Obj{{K: "k", V: true}}})
 		}
 	}
 	if g.O.Descs && r.Chance(0.3) {
